@@ -1,3 +1,579 @@
 package main
 
-func runC01(id string) int { return 2 }
+import (
+	"fmt"
+	"reflect"
+	"runtime"
+	"sort"
+	"strings"
+	"sync"
+
+	"verif/internal/prng"
+	"verif/internal/verdict"
+)
+
+type c01Case struct {
+	Class string                 `json:"class"` // "canonical" or "accepted"
+	Origin string                `json:"origin,omitempty"`
+	Doc   map[string]interface{} `json:"doc"`
+}
+
+// ctxSet normalises a top-level @context to a sorted list of strings when it
+// is a string or an array of strings; other shapes are returned as they are.
+func ctxSet(v interface{}) interface{} {
+	switch x := v.(type) {
+	case string:
+		return []string{x}
+	case []interface{}:
+		var s []string
+		for _, e := range x {
+			str, ok := e.(string)
+			if !ok {
+				return v
+			}
+			s = append(s, str)
+		}
+		sort.Strings(s)
+		// set semantics
+		var out []string
+		for i, e := range s {
+			if i == 0 || s[i-1] != e {
+				out = append(out, e)
+			}
+		}
+		return out
+	}
+	return v
+}
+
+// jsonDiff returns the path of the first difference between two JSON values,
+// or "" when equal. At the top level @context is compared as a set.
+func jsonDiff(a, b interface{}, path string, top bool) string {
+	switch x := a.(type) {
+	case map[string]interface{}:
+		y, ok := b.(map[string]interface{})
+		if !ok {
+			return path + ": object vs " + fmt.Sprintf("%T", b)
+		}
+		for k, va := range x {
+			vb, in := y[k]
+			if !in {
+				return path + "/" + k + ": missing in output"
+			}
+			if top && k == "@context" {
+				if !reflect.DeepEqual(ctxSet(va), ctxSet(vb)) {
+					return fmt.Sprintf("%s/@context: %s vs %s", path, jstr(va), jstr(vb))
+				}
+				continue
+			}
+			if d := jsonDiff(va, vb, path+"/"+k, false); d != "" {
+				return d
+			}
+		}
+		for k := range y {
+			if _, in := x[k]; !in {
+				return path + "/" + k + ": added in output"
+			}
+		}
+		return ""
+	case []interface{}:
+		y, ok := b.([]interface{})
+		if !ok {
+			return path + ": array vs " + fmt.Sprintf("%T", b)
+		}
+		if len(x) != len(y) {
+			return fmt.Sprintf("%s: array length %d vs %d", path, len(x), len(y))
+		}
+		for i := range x {
+			if d := jsonDiff(x[i], y[i], fmt.Sprintf("%s[%d]", path, i), false); d != "" {
+				return d
+			}
+		}
+		return ""
+	default:
+		if !reflect.DeepEqual(a, b) {
+			return fmt.Sprintf("%s: %s vs %s", path, jstr(a), jstr(b))
+		}
+		return ""
+	}
+}
+
+var typeByName map[string]string // JSON type name -> key ("" when ambiguous)
+var propsByName map[string][]string
+
+func buildNameIndex() {
+	typeByName = map[string]string{}
+	for _, k := range O.TypeKeys {
+		n := O.Types[k].Name
+		if _, dup := typeByName[n]; dup {
+			typeByName[n] = ""
+		} else {
+			typeByName[n] = k
+		}
+	}
+	propsByName = map[string][]string{}
+	for _, k := range O.PropKeys {
+		propsByName[O.Props[k].Name] = append(propsByName[O.Props[k].Name], k)
+	}
+}
+
+// levelType determines the ontology type of an object level from its "type"
+// member, or from the typeless range of the property that holds it.
+func levelType(m map[string]interface{}, parentProp string) string {
+	switch tv := m["type"].(type) {
+	case string:
+		return typeByName[strings.TrimPrefix(tv, "as:")]
+	case []interface{}:
+		for _, e := range tv {
+			if s, ok := e.(string); ok && typeByName[s] != "" {
+				return typeByName[s]
+			}
+		}
+	}
+	if parentProp != "" {
+		for _, k := range O.KindTypes(parentProp) {
+			if O.Types[k].Typeless {
+				return k
+			}
+		}
+	}
+	return ""
+}
+
+// knownProp returns the property key when name is a property of type t.
+func knownProp(t, name string) string {
+	if t == "" {
+		return ""
+	}
+	for _, p := range propsByName[name] {
+		if O.HasProp(t, p) {
+			return p
+		}
+	}
+	return ""
+}
+
+type lossInfo struct {
+	nullKnown   bool // the input contains a null for a known property
+	nestedArray bool // the input contains an array directly inside an array
+}
+
+// scanInput records the features that the statement exempts from idempotence.
+func scanInput(v interface{}, t string, li *lossInfo) {
+	switch x := v.(type) {
+	case map[string]interface{}:
+		for k, vv := range x {
+			if vv == nil && (knownProp(t, k) != "" || knownProp(t, strings.TrimSuffix(k, "Map")) != "" || k == "id" || k == "type") {
+				li.nullKnown = true
+			}
+			child := ""
+			if m, ok := vv.(map[string]interface{}); ok {
+				child = levelType(m, knownProp(t, k))
+			}
+			scanInput2(vv, child, knownProp(t, k), li)
+		}
+	}
+}
+
+func scanInput2(v interface{}, t string, parentProp string, li *lossInfo) {
+	switch x := v.(type) {
+	case map[string]interface{}:
+		scanInput(x, t, li)
+	case []interface{}:
+		for _, e := range x {
+			if _, ok := e.([]interface{}); ok {
+				li.nestedArray = true
+			}
+			if m, ok := e.(map[string]interface{}); ok {
+				scanInput(m, levelType(m, parentProp), li)
+			} else {
+				scanInput2(e, "", parentProp, li)
+			}
+		}
+	}
+}
+
+// lossCheck returns the path of the first silently dropped member, or "".
+func lossCheck(in, out map[string]interface{}, t string, path string, top bool) string {
+	for k, v := range in {
+		if k == "@context" {
+			if top {
+				if _, ok := out[k]; !ok {
+					return path + "/@context: dropped"
+				}
+			}
+			continue
+		}
+		p := knownProp(t, k)
+		base := strings.TrimSuffix(k, "Map")
+		isMapSpelling := false
+		if p == "" && base != k {
+			if q := knownProp(t, base); q != "" && O.Props[q].NatLang {
+				p = q
+				isMapSpelling = true
+			}
+		}
+		known := p != "" || (t != "" && (k == "id" || (k == "type" && !O.Types[t].Typeless)))
+		if v == nil && known {
+			continue
+		}
+		ov, ok := out[k]
+		if !ok && p != "" && O.Props[p].NatLang {
+			if isMapSpelling {
+				ov, ok = out[base]
+			} else {
+				ov, ok = out[k+"Map"]
+			}
+		}
+		if !ok {
+			return path + "/" + k + ": member dropped"
+		}
+		if p != "" && O.Props[p].NatLang {
+			// both spellings given: the content of both must survive
+			other := k + "Map"
+			if isMapSpelling {
+				other = base
+			}
+			if iv2, both := in[other]; both && iv2 != nil && v != nil {
+				_, has1 := out[k]
+				_, has2 := out[other]
+				if !(has1 && has2) {
+					need := countValues(v) + countValues(iv2)
+					got := 0
+					if has1 {
+						got = countValues(out[k])
+					} else if has2 {
+						got = countValues(out[other])
+					}
+					if got < need {
+						return "BOTH-SPELLINGS " + path + "/" + base + "(Map): natural-language property given in both spellings, one dropped"
+					}
+				}
+			}
+		}
+		if d := lossValue(v, ov, p, path+"/"+k); d != "" {
+			return d
+		}
+	}
+	return ""
+}
+
+func lossValue(v, ov interface{}, parentProp string, path string) string {
+	switch x := v.(type) {
+	case map[string]interface{}:
+		if y, ok := ov.(map[string]interface{}); ok {
+			return lossCheck(x, y, levelType(x, parentProp), path, false)
+		}
+	case []interface{}:
+		if y, ok := ov.([]interface{}); ok && len(y) == len(x) {
+			for i := range x {
+				if d := lossValue(x[i], y[i], parentProp, fmt.Sprintf("%s[%d]", path, i)); d != "" {
+					return d
+				}
+			}
+		} else if len(x) == 1 {
+			return lossValue(x[0], ov, parentProp, path+"[0]")
+		} else if ok && len(y) != len(x) {
+			// elements dropped from a list of a known property (nulls excepted)
+			nn := 0
+			for _, e := range x {
+				if e != nil {
+					nn++
+				}
+			}
+			if parentProp != "" && len(y) < nn {
+				return fmt.Sprintf("%s: list shrank from %d to %d", path, len(x), len(y))
+			}
+		}
+	}
+	return ""
+}
+
+func c01Judge(r *verdict.Run, cs c01Case) {
+	r.Eval(1)
+	pristine := deepCopy(cs.Doc).(map[string]interface{})
+	work := deepCopy(cs.Doc).(map[string]interface{})
+	t, err, pan := decode(work)
+	if pan != nil {
+		r.Count("decode_panics_left_to_C11", 1)
+		if cs.Class == "canonical" {
+			r.Violate(verdict.Sig{Rule: "C01.canonical-rejected", Site: "streams.ToType", Feature: "panic"}, cs, fmt.Sprint(pan))
+		}
+		return
+	}
+	if err != nil || t == nil {
+		r.Count("rejected_by_decoder", 1)
+		if cs.Class == "canonical" {
+			r.Violate(verdict.Sig{Rule: "C01.canonical-rejected", Site: "streams.ToType", Feature: fmt.Sprint(cs.Doc["type"])}, cs, fmt.Sprint(err))
+		}
+		return
+	}
+	r.Count("accepted_by_decoder", 1)
+	out, err, pan := encode(t)
+	if err != nil || pan != nil {
+		r.Violate(verdict.Sig{Rule: "C01.encode-failed", Site: "streams.Serialize", Feature: fmt.Sprint(cs.Doc["type"])}, cs, fmt.Sprintf("err=%v panic=%v", err, pan))
+		return
+	}
+	o1i, jerr := jsonify(out)
+	if jerr != nil {
+		r.Violate(verdict.Sig{Rule: "C01.encode-not-json", Site: "streams.Serialize", Feature: fmt.Sprint(cs.Doc["type"])}, cs, jerr.Error())
+		return
+	}
+	o1 := o1i.(map[string]interface{})
+	top := levelType(pristine, "")
+	if cs.Class == "canonical" {
+		if d := jsonDiff(pristine, o1, "", true); d != "" {
+			r.Violate(verdict.Sig{Rule: "C01.canonical-not-equal", Site: "streams.Serialize", Feature: diffFeature(d)}, cs, map[string]interface{}{"diff": d, "output": o1})
+		}
+		r.NonTrivial(jstr(cs.Doc))
+	}
+	if d := lossCheck(pristine, o1, top, "", true); d != "" {
+		r.Violate(verdict.Sig{Rule: "C01.member-dropped", Site: "streams.Serialize", Feature: diffFeature(d)}, cs, map[string]interface{}{"diff": d, "output": o1})
+	}
+	// second round trip
+	var li lossInfo
+	scanInput(pristine, top, &li)
+	t2, err2, pan2 := decode(deepCopy(o1).(map[string]interface{}))
+	if pan2 != nil {
+		r.Count("decode_panics_left_to_C11", 1)
+		return
+	}
+	if err2 != nil || t2 == nil {
+		r.Violate(verdict.Sig{Rule: "C01.output-not-decodable", Site: "streams.ToType", Feature: fmt.Sprint(cs.Doc["type"])}, cs, map[string]interface{}{"err": fmt.Sprint(err2), "output": o1})
+		return
+	}
+	out2, err, pan := encode(t2)
+	if err != nil || pan != nil {
+		r.Violate(verdict.Sig{Rule: "C01.encode-failed", Site: "streams.Serialize", Feature: "second"}, cs, fmt.Sprintf("err=%v panic=%v", err, pan))
+		return
+	}
+	o2, _ := jsonify(out2)
+	if li.nullKnown || li.nestedArray {
+		r.Count("idempotence_exempt(null-or-nested-array)", 1)
+	} else {
+		if d := jsonDiff(o1, o2, "", true); d != "" {
+			r.Violate(verdict.Sig{Rule: "C01.not-idempotent", Site: "streams.Serialize", Feature: diffFeature(d)}, cs, map[string]interface{}{"diff": d, "first": o1, "second": o2})
+		}
+		r.Count("idempotence_judged", 1)
+		if cs.Class != "canonical" {
+			r.NonTrivial(jstr(cs.Doc))
+		}
+	}
+}
+
+func countValues(v interface{}) int {
+	if a, ok := v.([]interface{}); ok {
+		return len(a)
+	}
+	return 1
+}
+
+// diffFeature reduces a diff path to a coarse feature (no indices, no values).
+func diffFeature(d string) string {
+	if strings.HasPrefix(d, "BOTH-SPELLINGS") {
+		return "natural-language property given in both spellings: one is dropped"
+	}
+	if i := strings.Index(d, ":"); i >= 0 {
+		path, what := d[:i], d[i+1:]
+		var b strings.Builder
+		skip := false
+		for _, c := range path {
+			if c == '[' {
+				skip = true
+			}
+			if !skip {
+				b.WriteRune(c)
+			}
+			if c == ']' {
+				skip = false
+			}
+		}
+		w := strings.TrimSpace(what)
+		if j := strings.IndexAny(w, " "); j > 0 && (strings.HasPrefix(w, "member") || strings.HasPrefix(w, "missing") || strings.HasPrefix(w, "added") || strings.HasPrefix(w, "list") || strings.HasPrefix(w, "array")) {
+			w = strings.Fields(w)[0] + " " + strings.Fields(w)[1]
+		} else {
+			w = "value differs"
+		}
+		segs := strings.Split(b.String(), "/")
+		if len(segs) > 3 {
+			segs = segs[len(segs)-2:]
+		}
+		return strings.Join(segs, "/") + ": " + w
+	}
+	return d
+}
+
+// unknownProbe is attached to every document of the exhaustive cover.
+func unknownProbe() interface{} {
+	return map[string]interface{}{"a": nil, "b": []interface{}{float64(1), []interface{}{float64(2)}}, "c": map[string]interface{}{"d": "e", "n": nil}}
+}
+
+// coverDocs enumerates the exhaustive (type, property, kind) cover.
+func coverDocs(emit func(c01Case)) {
+	for _, T := range O.TypeKeys {
+		ty := O.Types[T]
+		if ty.Typeless {
+			// a typeless object is not a document of a known type; it is
+			// covered as a nested value kind of the properties ranging over it
+			continue
+		}
+		base := func(vs vocabSet) map[string]interface{} {
+			m := map[string]interface{}{"id": "https://example.com/cover/" + T, "x-unknown": unknownProbe()}
+			if !ty.Typeless {
+				m["type"] = ty.Name
+			}
+			vs[ty.VocabURI] = true
+			return m
+		}
+		{
+			vs := vocabSet{}
+			m := base(vs)
+			m["@context"] = contextValue(vs)
+			emit(c01Case{Class: "canonical", Origin: "cover:" + T, Doc: m})
+		}
+		for _, P := range O.PropsOf(T) {
+			pr := O.Props[P]
+			kinds := kindsOf(P)
+			for ki, k := range kinds {
+				g := prng.New(1, "C01.cover."+T+"."+P, ki)
+				mk := func(kc kindChoice, n int, vs vocabSet) interface{} {
+					switch {
+					case kc.IRI:
+						return fmt.Sprintf("https://example.com/iri/%d", n)
+					case kc.Lit != "":
+						b := baseSamples(kc.Lit)
+						s := b[n%len(b)]
+						if kc.Lit == "XMLSchemaNonNegativeInteger" {
+							s = float64(n + 3)
+						}
+						return s
+					default:
+						kt := O.Types[kc.Type]
+						vs[kt.VocabURI] = true
+						o := map[string]interface{}{"id": fmt.Sprintf("https://example.com/obj/%s/%d", kc.Type, n)}
+						if !kt.Typeless {
+							o["type"] = kt.Name
+						}
+						return o
+					}
+				}
+				vs := vocabSet{}
+				m := base(vs)
+				vs[pr.VocabURI] = true
+				name := pr.Name
+				if k.Lit == "RDFLangString" {
+					name = pr.Name + "Map"
+				}
+				m[name] = mk(k, 0, vs)
+				m["@context"] = contextValue(vs)
+				emit(c01Case{Class: "canonical", Origin: fmt.Sprintf("cover:%s.%s", T, P), Doc: m})
+				if !pr.Functional && k.Lit != "RDFLangString" {
+					vs2 := vocabSet{}
+					m2 := base(vs2)
+					vs2[pr.VocabURI] = true
+					var k2 kindChoice
+					for {
+						k2 = kinds[g.Intn(len(kinds))]
+						if k2.Lit != "RDFLangString" {
+							break
+						}
+					}
+					m2[pr.Name] = []interface{}{mk(k, 1, vs2), mk(k2, 2, vs2)}
+					m2["@context"] = contextValue(vs2)
+					emit(c01Case{Class: "canonical", Origin: fmt.Sprintf("cover-list:%s.%s", T, P), Doc: m2})
+				}
+			}
+		}
+	}
+}
+
+func runC01(id string) int {
+	r := verdict.New(id, *tier, "exploration")
+	r.Rule = "documents derived from the ontology grammar: (a) canonical class = exhaustive (type, property, value kind) cover in scalar and two-element-list form, each with an unknown member holding null/nested array/object, plus seeded random documents (depth<=3, lists<=4, natural-language maps, multi-vocabulary contexts, unknown members), judged by JSON equality with @context as a set; (b) accepted class = grammar mutations of those documents and the vocabulary files' examples, judged by no-silent-loss and second-round-trip idempotence; non-trivial = decoder accepted the document and it was fully judged; distinct by document"
+	r.Assumptions = []string{"ontology oracle decides which members are known properties of an object level", "JSON equality after passing the encoder's output through encoding/json", "a canonical document's @context names exactly the vocabularies of its type, its set properties and its interpreted nested objects"}
+	buildNameIndex()
+	if *replay != "" {
+		var cs c01Case
+		if err := readReplayCase(*replay, &cs); err != nil {
+			fmt.Println("replay:", err)
+			return 2
+		}
+		r.MinNontrivial = 0
+		c01Judge(r, cs)
+		return r.Finish()
+	}
+	ch := make(chan c01Case, 256)
+	var wg sync.WaitGroup
+	for w := 0; w < runtime.NumCPU(); w++ {
+		wg.Add(1)
+		go func() {
+			defer wg.Done()
+			for cs := range ch {
+				c01Judge(r, cs)
+			}
+		}()
+	}
+	nCover := 0
+	coverDocs(func(cs c01Case) {
+		nCover++
+		if nCover%20000 == 1 {
+			r.Sample(cs)
+		}
+		ch <- cs
+	})
+	r.Count("cover_documents", nCover)
+	nRand := 3000
+	depth := 2
+	if *tier == "thorough" {
+		nRand = 30000
+		depth = 3
+	}
+	for i := 0; i < nRand; i++ {
+		g := prng.New(r.SeedV, "C01.random", i)
+		T := O.TypeKeys[g.Intn(len(O.TypeKeys))]
+		if O.Types[T].Typeless {
+			continue
+		}
+		d := depth
+		if *tier != "thorough" && g.Chance(1, 5) {
+			d = 3
+		}
+		cs := c01Case{Class: "canonical", Origin: fmt.Sprintf("random:%d", i), Doc: genCanonicalDoc(T, d, g)}
+		if i < 2 {
+			r.Sample(cs)
+		}
+		ch <- cs
+	}
+	r.Count("random_canonical_documents", nRand)
+	// accepted class: mutations
+	nMut := 0
+	emitMut := func(cs c01Case) {
+		nMut++
+		if nMut%5000 == 1 {
+			r.Sample(cs)
+		}
+		ch <- cs
+	}
+	nBase := 400
+	if *tier == "thorough" {
+		nBase = 4000
+	}
+	for i := 0; i < nBase; i++ {
+		g := prng.New(r.SeedV, "C01.mutbase", i)
+		T := O.TypeKeys[g.Intn(len(O.TypeKeys))]
+		if O.Types[T].Typeless {
+			continue
+		}
+		doc := genCanonicalDoc(T, 2, g)
+		mutateDoc(doc, g, 12, func(m map[string]interface{}, how string) {
+			emitMut(c01Case{Class: "accepted", Origin: fmt.Sprintf("mutation:%d:%s", i, how), Doc: m})
+		})
+	}
+	for _, ex := range vocabExamples() {
+		emitMut(c01Case{Class: "accepted", Origin: "vocabulary-example", Doc: ex})
+	}
+	r.Count("mutated_and_example_documents", nMut)
+	close(ch)
+	wg.Wait()
+	return r.Finish()
+}
